@@ -156,6 +156,9 @@ func prepare(g specGen) (*prepared, bool, error) {
 			}
 		}
 	}); e != nil {
+		if rec.QueuePanic(e) {
+			return nil, false, nil // listed dependency finding, identified by its call site: the specification is skipped
+		}
 		return nil, false, e
 	}
 	if perr != nil || derr != nil {
